@@ -128,56 +128,74 @@ fn check(case: &Case, ctx: &mut Ctx) -> Verdict {
 }
 
 // ------------------------------------------------------------------------------------------------
-// forced interleavings through the cfg(folo_verif) yield point in RefSync::drop
+// forced interleavings through the cfg(folo_verif) points in linked: the named point in
+// RefSync::drop and every acquisition / release of the per-thread map lock ("sync/*")
 
 use std::cell::Cell;
 use std::sync::{Condvar, Mutex};
 
 thread_local! {
-    static PAUSE_HERE: Cell<bool> = const { Cell::new(false) };
+    /// (dropper index, park at this many points passed) for the current dropper thread
+    static PARK_AT: Cell<Option<(usize, u32)>> = const { Cell::new(None) };
+    static POINTS_PASSED: Cell<u32> = const { Cell::new(0) };
+}
+
+#[derive(Clone, Copy, PartialEq, Eq, Debug)]
+enum DState {
+    Running,
+    Parked,
+    Released,
+    Done,
 }
 
 struct Gate {
-    state: Mutex<(u32, bool)>, // (threads parked at the point, released)
+    state: Mutex<Vec<DState>>,
     cv: Condvar,
 }
 
-static GATE: Gate = Gate {
-    state: Mutex::new((0, false)),
-    cv: Condvar::new(),
-};
+static GATE: Gate = Gate { state: Mutex::new(Vec::new()), cv: Condvar::new() };
 
-fn point_hook(name: &'static str) {
-    if name != "ref_sync/drop/after-last-ref-check" || !PAUSE_HERE.with(Cell::get) {
+fn point_hook(_name: &'static str) {
+    let Some((me, at)) = PARK_AT.with(Cell::get) else { return };
+    let n = POINTS_PASSED.with(|c| {
+        let v = c.get();
+        c.set(v + 1);
+        v
+    });
+    if n != at {
         return;
     }
     let mut g = GATE.state.lock().unwrap();
-    g.0 += 1;
+    g[me] = DState::Parked;
     GATE.cv.notify_all();
-    while !g.1 {
+    while g[me] != DState::Released {
         g = GATE.cv.wait(g).unwrap();
     }
 }
 
+/// How many points a drop can pass at most (lock acquisition, release, named point, and room for
+/// more if the code changes); a dropper that passes fewer simply never parks.
+const MAX_POINTS: u32 = 5;
+
 #[derive(Debug, Clone, Serialize, Deserialize)]
 struct FCase {
-    /// per reference (dropped on its own thread, in this order): park inside drop right after the
-    /// last-reference check until every later drop has completed?
-    park: Vec<bool>,
-}
-
-fn fcase_strategy() -> impl Strategy<Value = FCase> {
-    prop::collection::vec(prop::bool::weighted(0.5), 2..5).prop_map(|park| FCase { park })
+    /// per reference (dropped on its own thread, started in this order): `None` = runs to
+    /// completion at once; `Some(j)` = parks inside `drop` just before its (j+1)-th point - lock
+    /// acquisition, lock release or the named point after the last-reference check - until every
+    /// later dropper has completed or parked
+    park: Vec<Option<u32>>,
+    /// parked droppers are resumed (each to completion) in reverse instead of start order
+    reverse: bool,
 }
 
 fn check_forced(case: &FCase, ctx: &mut Ctx) -> Verdict {
     let log = Arc::new(Log::default());
     let wrapper = InstancePerThreadSync::new(Obj::new(Arc::clone(&log)));
     let live0 = log.created.load(Ordering::SeqCst) - log.dropped.load(Ordering::SeqCst);
-    *GATE.state.lock().unwrap() = (0, false);
+    let k = case.park.len();
+    *GATE.state.lock().unwrap() = vec![DState::Running; k];
     // origin thread acquires and hands out the references, then exits
     let w2 = wrapper.clone();
-    let k = case.park.len();
     let refs: Vec<linked::RefSync<Obj>> = std::thread::spawn(move || {
         let first = w2.acquire();
         let v: Vec<_> = (0..k).map(|_| first.clone()).collect();
@@ -186,47 +204,63 @@ fn check_forced(case: &FCase, ctx: &mut Ctx) -> Verdict {
     })
     .join()
     .map_err(|_| Failure::new("C12/per-thread-sync/concurrent-drop/panic", "origin thread panicked".to_string()))?;
-    let mut parked = 0u32;
-    let mut handles = Vec::new();
-    for (r, park) in refs.into_iter().zip(case.park.iter().copied()) {
+    let mut handles: Vec<Option<std::thread::JoinHandle<()>>> = Vec::new();
+    let mut parked = Vec::new();
+    for (i, (r, park)) in refs.into_iter().zip(case.park.iter().copied()).enumerate() {
         let h = std::thread::spawn(move || {
-            PAUSE_HERE.with(|p| p.set(park));
+            PARK_AT.with(|p| p.set(park.map(|j| (i, j))));
+            POINTS_PASSED.with(|c| c.set(0));
             drop(r);
-        });
-        if park {
-            parked += 1;
-            // wait until this dropper sits at the yield point
+            PARK_AT.with(|p| p.set(None));
             let mut g = GATE.state.lock().unwrap();
-            while g.0 < parked {
-                g = GATE.cv.wait(g).unwrap();
-            }
-            handles.push(h);
-        } else {
-            h.join().map_err(|_| Failure::new("C12/per-thread-sync/concurrent-drop/panic", "a dropper thread panicked".to_string()))?;
-        }
-    }
-    {
+            g[i] = DState::Done;
+            GATE.cv.notify_all();
+        });
+        // wait until this dropper is parked or has finished (a panic in drop also ends the wait)
         let mut g = GATE.state.lock().unwrap();
-        g.1 = true;
-        GATE.cv.notify_all();
+        while g[i] == DState::Running && !h.is_finished() {
+            g = GATE.cv.wait_timeout(g, std::time::Duration::from_millis(20)).unwrap().0;
+        }
+        if g[i] == DState::Parked {
+            parked.push(i);
+        }
+        drop(g);
+        handles.push(Some(h));
     }
-    for h in handles {
-        h.join().map_err(|_| Failure::new("C12/per-thread-sync/concurrent-drop/panic", "a parked dropper thread panicked".to_string()))?;
-    }
-    if parked > 0 {
-        ctx.classify("drop-parked-after-count-check");
+    if !parked.is_empty() {
+        ctx.classify("drop-parked-inside-RefSync::drop");
+        ctx.classify(&format!("parked-droppers:{}", parked.len()));
         ctx.nontrivial();
+    }
+    if case.reverse {
+        parked.reverse();
+    }
+    let fail_panic = || Failure::new("C12/per-thread-sync/concurrent-drop/panic", "a dropper thread panicked".to_string());
+    // resume the parked droppers one at a time, each to completion
+    for i in parked {
+        {
+            let mut g = GATE.state.lock().unwrap();
+            g[i] = DState::Released;
+            GATE.cv.notify_all();
+        }
+        handles[i].take().expect("joined once").join().map_err(|_| fail_panic())?;
+    }
+    for h in handles.into_iter().flatten() {
+        h.join().map_err(|_| fail_panic())?;
     }
     let created = log.created.load(Ordering::SeqCst);
     let dropped = log.dropped.load(Ordering::SeqCst);
     if created != dropped + live0 {
         return Err(Failure::new(
             "C12/per-thread-sync/concurrent-drop/instance-not-dropped-at-last-ref",
-            format!("{created} instances created, {dropped} destroyed after every reference aligned to the origin thread was dropped (park pattern {:?}); only what existed before the acquire ({live0}) should remain", case.park),
+            format!("{created} instances created, {dropped} destroyed after every reference aligned to the origin thread was dropped (park pattern {:?}, reverse resume {}); only what existed before the acquire ({live0}) should remain", case.park, case.reverse),
         ));
     }
     if let Err(m) = vcommon::catch(move || drop(wrapper)) {
         return Err(Failure::new("C12/per-thread-sync/concurrent-drop/wrapper-drop-panicked", format!("dropping the wrapper panicked: {m}")));
+    }
+    if log.created.load(Ordering::SeqCst) != log.dropped.load(Ordering::SeqCst) {
+        return Err(Failure::new("C12/per-thread-sync/concurrent-drop/leak", "instances leaked after the wrapper was dropped".to_string()));
     }
     Ok(())
 }
@@ -242,13 +276,26 @@ fn main() {
         case_strategy(),
         check,
     );
-    let all: Vec<FCase> = (2usize..5)
-        .flat_map(|k| (0u32..(1 << k)).map(move |m| FCase { park: (0..k).map(|i| m >> i & 1 == 1).collect() }))
-        .collect();
-    let _ = fcase_strategy;
+    let mut all: Vec<FCase> = Vec::new();
+    for k in 2usize..=3 {
+        let choices = MAX_POINTS + 1; // None, Some(0..MAX_POINTS)
+        for code in 0..choices.pow(k as u32) {
+            let mut c = code;
+            let park: Vec<Option<u32>> = (0..k)
+                .map(|_| {
+                    let d = c % choices;
+                    c /= choices;
+                    d.checked_sub(1)
+                })
+                .collect();
+            for reverse in [false, true] {
+                all.push(FCase { park: park.clone(), reverse });
+            }
+        }
+    }
     h.enumerate(
         "concurrent-drop-forced",
-        "complete enumeration: 2..4 references aligned to one origin thread, each dropped on its own thread in order; every subset of them parks inside RefSync::drop right after the last-reference check (cfg(folo_verif) yield point) until all other drops have completed - i.e. every way the checks of concurrent drops can overlap; oracle as in concurrent-drop. Non-trivial = at least one parked drop",
+        "complete enumeration: 2..3 references aligned to one origin thread, each dropped on its own thread, started in order; each dropper either runs to completion at once or parks inside RefSync::drop just before its j-th point, j = 0..4, where the points are every acquisition and every release of the per-thread map lock (cfg(folo_verif) lock wrapper) and the named point after the last-reference check; the parked droppers are then resumed one at a time, in start order or in reverse - i.e. every way in which a prefix of one drop can overlap the whole of the others; oracle as in concurrent-drop. Non-trivial = at least one parked drop",
         all,
         check_forced,
     );
